@@ -474,7 +474,7 @@ func (s *vScenario) projectJob(kind string) map[string]any {
 		case "import":
 			return map[string]any{"phase": "none", "batch": []int{}, "idx": []string{}, "next": 0, "file": "", "upd": []int{}, "res": []int{}, "add": []int{}, "used": 0, "n": 0, "err": ""}
 		case "tag":
-			return map[string]any{"phase": "none", "tag": "", "def": vDef{S: []int{}}, "U0": []int{}, "M0": []int{}, "idx": []string{}, "td": map[string]any{}, "M1": []int{}, "err": ""}
+			return map[string]any{"phase": "none", "tag": "", "def": vDef{S: []int{}}, "td": map[string]any{}, "idx": []string{}, "U0": []int{}, "M0": []int{}, "M1": []int{}, "stale": false, "err": ""}
 		case "merge":
 			return map[string]any{"phase": "none", "off": 0, "idx": []string{}, "file": "", "err": ""}
 		}
@@ -531,6 +531,9 @@ func (s *vScenario) projectJob(kind string) map[string]any {
 		j["td"] = td
 		j["idx"] = s.fids(in.start[3].([]*index.Reader))
 		j["U0"], j["M0"] = in.extra[0], in.extra[1]
+		// the job's definition is not the one the tag of that name has now (deleted, renamed, added again, query changed)
+		cur, ok := s.mgr.tags[in.start[0].(string)]
+		j["stale"] = !ok || cur.version != t.version
 		if in.phase == "gate" {
 			j["M1"] = vBits(in.result[1].(*tag).Matches)
 			j["err"] = errStr(in.result[2])
